@@ -20,6 +20,7 @@ import (
 	pb "github.com/godaddy/asherah/server/go/api"
 	"github.com/godaddy/asherah/server/go/pkg/server"
 
+	"verif.local/harness/vrt"
 	"verif.local/harness/vutil"
 )
 
@@ -279,9 +280,26 @@ func (l *lazyStream) Recv() (*pb.SessionRequest, error) {
 	if l.consumed >= len(l.kinds) {
 		return nil, io.EOF
 	}
+	if l.rng.Intn(4) == 0 {
+		// a long-lived stream: more than the key lifetime passes between two requests (the sidecar rotates keys underneath it)
+		advanceClock(25 * 3600)
+	}
 	r := l.f.request(l.kinds[l.consumed], *l.lastEnc, l.rng)
 	l.consumed++
 	return r, nil
+}
+
+// the sidecar's SDK reads the harness clock (build overlay): one virtual clock for all streams, moving forward only
+var (
+	clockMu  sync.Mutex
+	modelNow int64
+)
+
+func advanceClock(sec int64) {
+	clockMu.Lock()
+	modelNow += sec
+	vrt.SetModelTime(modelNow)
+	clockMu.Unlock()
 }
 
 // Replay runs TLC-generated request sequences; concurrent > 1 additionally runs seeded longer sequences on that many
@@ -298,6 +316,8 @@ func Replay(inPath, tracePath, outPath string, seed int64, concurrent, longRuns 
 	}
 	res := &vutil.Result{Driver: "server-replay",
 		Rule: "every request sequence up to the bound over {get-session valid/empty, encrypt, decrypt own/foreign/corrupt/empty, empty request} followed by end-of-stream, enumerated by TLC from Server.tla, played on the real AppEncryption.Session over an in-memory stream (with and without session caching); non-trivial = contains a get-session and at least one later request; plus seeded longer sequences on concurrent streams"}
+	advanceClock(0)
+	defer vrt.RealTime()
 	fixtures := []*fixture{}
 	for _, sc := range []bool{false, true} {
 		f, err := newFixture(sc)
